@@ -453,6 +453,13 @@ fn dispatch(cmd: &str, a: &Args) -> i32 {
         "replay" => replay(a),
         "minimise" => minimise::run(a),
         "distinct" => distinct(a),
+        "probe-custom" => {
+            let p = c18::build_parser(&scenario::ParserCfg { ext_bits: scenario::EXT_ALL, converter: "custom-de".into() });
+            let b = c18::build_parser(&scenario::ParserCfg { ext_bits: scenario::EXT_ALL, converter: "bundled".into() });
+            let si = c18::build_parser(&scenario::ParserCfg { ext_bits: scenario::EXT_ALL, converter: "custom-si".into() });
+            println!("custom units={} EL={:?} | bundled units={} EL={:?} | si Kg={:?} dekagram={:?} bundled Kg={:?}", p.converter().unit_count(), p.converter().find_unit("EL").map(|u| u.symbol().to_string()), b.converter().unit_count(), b.converter().find_unit("EL").is_some(), si.converter().find_unit("Kg").map(|u| u.symbol().to_string()), si.converter().find_unit("dekagram").is_some(), b.converter().find_unit("Kg").is_some());
+            0
+        }
         "dict" => {
             println!("{:#?}", dict::get());
             0
